@@ -1,5 +1,120 @@
-// stub: check for C04 not built yet
+use c04::tree::{Case, Form, IdForm, Incoming, Item, Node, RngKind};
+use vcore::proptest::prelude::*;
+use vcore::Level;
+
+const RULE: &str = "a case is a span tree as data (<=24 span nodes, nesting depth <=6): every node has a form (attribute on sync fn / async fn, new_span! with Frame::call / Frame::enter / Frame::in_future, guard: parameter sync / async, when: parameter), an enabled flag (disabled = rejected by the runtime filter through its module, or by `when`), and a body of child spans, emit! events, SpanCtxt::current checks, yields, thread hops (with or without a carried Frame::current, entered by call or in_future) and joins of async tasks polled by a generated schedule; optionally incoming trace/span ids are pushed before the root as typed values, lower/upper-case hex strings or integers; the rng is a non-repeating counter (or yields nothing). It is interpreted by fixed macro call sites on a private runtime and judged relationally from the recorded events. Non-trivial = span nesting depth >=3, or a disabled node with an enabled descendant, or an async join, or a thread hop, or incoming ids given as hex strings.";
+
+const ASSUMPTIONS: [&str; 6] = [
+    "the oracle never predicts which id the rng hands out: each enabled span's ids are read from its own span event (identified by a unique module name) and only the relations stated by the property are demanded",
+    "the rng never repeats and never yields 0 (bijective mix of a counter); with the rng that yields nothing no incoming ids are generated and the oracle is `no ids anywhere, nothing panics` (rustdoc of SpanId::random / SpanCtxt::new)",
+    "incoming ids are a trace id with or without a span id; a span id without a trace id is not generated (the statement speaks of `the incoming ids`)",
+    "events outside every enabled span show the incoming values in the representation they were pushed in (hex text either case, or decimal for integers); they are compared after parsing by that representation",
+    "span_parent on non-span events, the trace ids of unrelated roots being different, and duplicate id keys behind the first occurrence are not judged (the statement is silent)",
+    "thread hops are joined before the parent continues, so a case is deterministic; true parallelism is irrelevant because all state is per thread",
+];
+
+fn form() -> impl Strategy<Value = Form> {
+    prop_oneof![
+        3 => Just(Form::SyncFn),
+        1 => Just(Form::ManualCall),
+        1 => Just(Form::ManualEnter),
+        1 => Just(Form::GuardSync),
+        1 => Just(Form::WhenSync),
+        3 => Just(Form::AsyncFn),
+        1 => Just(Form::ManualFuture),
+        1 => Just(Form::GuardAsync),
+    ]
+}
+
+fn leaf() -> impl Strategy<Value = Item> {
+    prop_oneof![3 => Just(Item::Event), 2 => Just(Item::Check), 2 => Just(Item::Yield)]
+}
+
+/// Bodies by remaining depth: explicit recursion (not `prop_recursive`) so that the branching factor
+/// stays near 1 and deep chains are as likely as wide, shallow trees.
+fn body(depth_left: u32) -> BoxedStrategy<Vec<Item>> {
+    if depth_left == 0 {
+        return prop::collection::vec(leaf(), 0..3).boxed();
+    }
+    let inner = body(depth_left - 1);
+    let item = prop_oneof![
+        5 => leaf(),
+        8 => (form(), prop::bool::weighted(0.75), inner.clone()).prop_map(|(form, enabled, items)| Item::Span(Node { form, enabled, items })),
+        1 => (prop::bool::weighted(0.7), any::<bool>(), inner.clone()).prop_map(|(carry, fut, items)| Item::Hop { carry, fut, items }),
+        1 => (any::<bool>(), prop::collection::vec(inner, 1..4), prop::collection::vec(0u8..6, 0..10))
+            .prop_map(|(carry, tasks, schedule)| Item::Join { carry, tasks, schedule }),
+    ];
+    prop::collection::vec(item, 0..4).boxed()
+}
+
+/// Constructive bound on the number of span nodes: nodes beyond the budget are replaced by an event.
+fn limit(items: &mut Vec<Item>, budget: &mut usize, depth: usize) {
+    for it in items.iter_mut() {
+        match it {
+            Item::Span(n) => {
+                if *budget == 0 || depth >= 6 {
+                    *it = Item::Event;
+                } else {
+                    *budget -= 1;
+                    limit(&mut n.items, budget, depth + 1);
+                }
+            }
+            Item::Hop { items, .. } => limit(items, budget, depth),
+            Item::Join { tasks, .. } => {
+                for t in tasks {
+                    limit(t, budget, depth)
+                }
+            }
+            _ => {}
+        }
+    }
+}
+
+fn trace_value() -> impl Strategy<Value = u128> {
+    prop_oneof![
+        5 => any::<u128>(),
+        1 => any::<u64>().prop_map(|v| v as u128),
+        1 => prop_oneof![Just(1u128), Just(u128::MAX), Just(0x12345678901234567890123456789012u128), Just(1u128 << 127), Just(10u128.pow(31))],
+    ]
+}
+
+fn span_value() -> impl Strategy<Value = u64> {
+    prop_oneof![
+        5 => any::<u64>(),
+        1 => any::<u32>().prop_map(|v| v as u64),
+        1 => prop_oneof![Just(1u64), Just(u64::MAX), Just(0x1234567890123456u64), Just(1u64 << 63), Just(10u64.pow(15))],
+    ]
+}
+
+fn case() -> impl Strategy<Value = Case> {
+    let incoming = prop_oneof![
+        1 => Just(None),
+        1 => (
+            trace_value(),
+            prop::option::weighted(0.8, span_value()),
+            prop_oneof![Just(IdForm::Typed), Just(IdForm::HexLower), Just(IdForm::HexUpper), Just(IdForm::Int)]
+        )
+            .prop_map(|(trace, span, form)| Some(Incoming { trace: ((trace >> 64) as u64, trace as u64), span, form })),
+    ];
+    let rng = prop_oneof![12 => any::<u64>().prop_map(RngKind::Counter), 1 => Just(RngKind::Empty)];
+    (rng, incoming, body(7)).prop_map(|(rng, incoming, mut items)| {
+        let mut budget = 24;
+        limit(&mut items, &mut budget, 0);
+        let incoming = if rng == RngKind::Empty { None } else { incoming };
+        Case { rng, incoming, items }
+    })
+}
+
 fn main() {
-    eprintln!("C04: check not built yet");
-    std::process::exit(2);
+    vcore::run("C04", Level::Exploration, RULE, &ASSUMPTIONS, |s| {
+        // DESIGN: each >= 5 % of the cases; the minima are ~1 % of the quick tier
+        for class in ["depth>=3", "disabled-with-enabled-descendant", "async-join", "thread-hop", "string-ids"] {
+            s.require(class, 200);
+        }
+        s.require("async-join-interleavable", 100);
+        s.require("thread-hop-carried-frame", 100);
+        s.require("integer-ids", 100);
+        s.require("empty-rng", 50);
+        s.gen("span-trees", s.n(20_000, 600_000), case, c04::check_case);
+    })
 }
